@@ -4,8 +4,10 @@ From Coquelicot Require Import Complex.
 From KV Require Import Base.Outcome C13.ModelOps C13.ModelEffects C13.ModelDelay C13.ModelTree
      C14.SpecLaws C14.ProofsLaws C14.Signals C14.SpecDelay C14.ProofsDelay
      C14.OpsC C14.SpecSVF C14.ProofsSVF C14.ProofsResponse C14.ProofsEQ C14.ProofsFreqResp
-     C14.SpecFreeverb C14.ProofsFreeverb C14.SpecCompressor C14.ProofsCompressor C14.ProofsDecay C14.ProofsDelayFx C14.SpecQ.
-From KV Require C13.Run.
+     C14.SpecFreeverb C14.ProofsFreeverb C14.SpecCompressor C14.ProofsCompressor C14.ProofsDecay C14.ProofsDelayFx C14.SpecQ
+     C14.ProofsCompSeg C14.ProofsFilterRate.
+From KV Require C13.Run Base.IEEE.
+From Flocq Require IEEE754.BinarySingleNaN.
 Import ListNotations.
 Open Scope ops_scope.
 Local Open Scope R_scope.
@@ -396,3 +398,185 @@ Theorem eq_low_frequency_clamped_refuted :
     eq_coeffs PI lit_1e4 lit_half lit_minq tan (Rpower 10) kind (lit_1e4 * fs) q gain (1 / fs) /\
     lit_1e4 * fs = 96 / 5 /\ fc = 12.
 Proof. exact eq_low_frequency_clamped_refuted. Qed.
+
+(** Compressor, PIECEWISE-constant level history: the input is any sequence of segments, each a run of frames in
+    which the detector sees a constant overshoot above the threshold on each channel; from ANY follower state the
+    run ends with the follower at the composition of the per-segment closed forms and produces the per-segment
+    outputs, the gain of frame n of a segment entered at e0 being 10^(follower(n+1) (1/ratio - 1) / 20). *)
+Theorem compressor_piecewise_R :
+  forall (lg pw : R -> R) (thr ratio att rel mk_db mix : R),
+    0 <= att -> 0 <= rel ->
+    forall (segs : list cseg) (st : R * R),
+      Forall (seg_ok lg thr) segs ->
+      run_frames (estep consts_R (ECompressor lg pw thr ratio att rel mk_db mix)) (SComp st) (concat (map seg_frames segs)) =
+      (SComp (segs_state att rel st segs), segs_out pw ratio att rel mk_db mix st segs).
+Proof. exact compressor_piecewise. Qed.
+
+(** ... whatever way the frames are cut into process calls (slices of at most the internal buffer size): in
+    particular no slice is special for consisting of zeros only (C13's partition theorem). *)
+Theorem compressor_piecewise_any_slicing_R :
+  forall (lg pw : R -> R) (thr ratio att rel mk_db mix : R),
+    0 <= att -> 0 <= rel ->
+    forall (T : nat) (segs : list cseg) (st : R * R) (slices : list (list (frame R))),
+      Forall (seg_ok lg thr) segs -> Forall (fun sl => (length sl <= T)%nat) slices ->
+      concat slices = concat (map seg_frames segs) ->
+      process_slices consts_R T (ECompressor lg pw thr ratio att rel mk_db mix) (SComp st) slices =
+      Ok (SComp (segs_state att rel st segs), segs_out pw ratio att rel mk_db mix st segs).
+Proof. exact compressor_piecewise_sliced. Qed.
+
+(** What those terms are: the follower at the end of a segment, the output of a segment, of a sequence; the
+    follower is the composition of the closed forms of the specification ([follower_segs]). *)
+Theorem compressor_segment_definitions_R :
+  forall (pw : R -> R) (ratio att rel mk_db mix : R),
+    (forall o e0 n, seg_end att rel o e0 n = follower o (follower_speed att rel o e0) e0 n) /\
+    (forall ol or_ el0 er0 n x xs,
+        seg_out pw ratio att rel mk_db mix ol or_ el0 er0 n (x :: xs) =
+        blend (pw (seg_end att rel ol el0 (S n) * (1 / ratio - 1) / 20) * fst x * pw (mk_db / 20),
+               pw (seg_end att rel or_ er0 (S n) * (1 / ratio - 1) / 20) * snd x * pw (mk_db / 20)) x mix
+        :: seg_out pw ratio att rel mk_db mix ol or_ el0 er0 (S n) xs) /\
+    (forall ol or_ el0 er0 n, seg_out pw ratio att rel mk_db mix ol or_ el0 er0 n [] = []) /\
+    (forall st, segs_state att rel st [] = st /\ segs_out pw ratio att rel mk_db mix st [] = []) /\
+    (forall st sg rest,
+        let st1 := (seg_end att rel (seg_l sg) (fst st) (length (seg_frames sg)),
+                    seg_end att rel (seg_r sg) (snd st) (length (seg_frames sg))) in
+        segs_state att rel st (sg :: rest) = segs_state att rel st1 rest /\
+        segs_out pw ratio att rel mk_db mix st (sg :: rest) =
+        seg_out pw ratio att rel mk_db mix (seg_l sg) (seg_r sg) (fst st) (snd st) 0 (seg_frames sg)
+        ++ segs_out pw ratio att rel mk_db mix st1 rest) /\
+    (forall segs st,
+        segs_state att rel st segs =
+        (follower_segs att rel (fst st) (map (fun sg => (seg_l sg, length (seg_frames sg))) segs),
+         follower_segs att rel (snd st) (map (fun sg => (seg_r sg, length (seg_frames sg))) segs))) /\
+    (forall e1 n x xs,
+        quiet_out pw ratio rel mk_db mix e1 n (x :: xs) =
+        blend (pw (rel ^ S n * e1 * (1 / ratio - 1) / 20) * fst x * pw (mk_db / 20),
+               pw (rel ^ S n * e1 * (1 / ratio - 1) / 20) * snd x * pw (mk_db / 20)) x mix
+        :: quiet_out pw ratio rel mk_db mix e1 (S n) xs) /\
+    (forall e1 n, quiet_out pw ratio rel mk_db mix e1 n [] = []).
+Proof.
+  exact (fun pw ratio att rel mk_db mix =>
+           conj (fun o e0 n => eq_refl) (conj (fun ol or_ el0 er0 n x xs => eq_refl) (conj (fun ol or_ el0 er0 n => eq_refl)
+           (conj (fun st => conj eq_refl eq_refl) (conj (fun st sg rest => conj eq_refl eq_refl)
+           (conj (segs_state_follower att rel) (conj (fun e1 n x xs => eq_refl) (fun e1 n => eq_refl)))))))).
+Qed.
+
+(** Which frames make a segment: a constant level (overshoot = level - threshold, 0 below it); ANY signal at or
+    below the threshold (overshoot 0); exact zeros, provided the level the detector assigns to 0 is not above the
+    threshold (it is -inf in the code, see [compressor_exact_zero_b32]). *)
+Theorem compressor_segment_kinds_R :
+  forall (lg : R -> R) (thr : R),
+    (forall Ll Lr x, at_levels lg Ll Lr x -> at_overshoot lg thr (overshoot thr Ll) (overshoot thr Lr) x) /\
+    (forall x, below lg thr x -> at_overshoot lg thr 0 0 x) /\
+    (20 * lg (Rabs 0) <= thr -> at_overshoot lg thr 0 0 (0, 0)) /\
+    (forall ol or_ x, at_overshoot lg thr ol or_ x <->
+                      overshoot thr (level_db lg (fst x)) = ol /\ overshoot thr (level_db lg (snd x)) = or_) /\
+    (forall sg : cseg, seg_ok lg thr sg <-> Forall (at_overshoot lg thr (fst (fst sg)) (snd (fst sg))) (snd sg)) /\
+    (forall sg : cseg, seg_l sg = fst (fst sg) /\ seg_r sg = snd (fst sg) /\ seg_frames sg = snd sg).
+Proof.
+  exact (fun lg thr => conj (at_levels_overshoot lg thr) (conj (below_overshoot lg thr) (conj (silence_overshoot lg thr)
+        (conj (fun ol or_ x => conj (fun h => h) (fun h => h)) (conj (fun sg => conj (fun h => h) (fun h => h))
+        (fun sg => conj eq_refl (conj eq_refl eq_refl))))))).
+Qed.
+
+(** Loud passage from rest, then a gap (silence or anything at or below the threshold), then a signal below the
+    threshold: the follower reaches e1 = (L - threshold)(1 - att^n1), RELEASES through the gap, and frame j of the
+    quiet signal gets the gain 10^(rel^(gap + j + 1) e1 (1/ratio - 1) / 20) — the release clock does not stop. *)
+Theorem compressor_release_through_silence_R :
+  forall (lg pw : R -> R) (thr ratio att rel mk_db mix : R),
+    0 <= att -> 0 <= rel ->
+    forall (L : R) (loud gap quiet : list (frame R)),
+      thr <= L -> att <= 1 ->
+      Forall (at_levels lg L L) loud -> Forall (at_overshoot lg thr 0 0) gap -> Forall (at_overshoot lg thr 0 0) quiet ->
+      let e1 := (L - thr) * (1 - att ^ length loud) in
+      run_frames (estep consts_R (ECompressor lg pw thr ratio att rel mk_db mix)) (SComp (0, 0)) (loud ++ gap ++ quiet) =
+      (SComp (rel ^ (length gap + length quiet) * e1, rel ^ (length gap + length quiet) * e1),
+       seg_out pw ratio att rel mk_db mix (L - thr) (L - thr) 0 0 0 loud ++
+       quiet_out pw ratio rel mk_db mix e1 0 gap ++ quiet_out pw ratio rel mk_db mix e1 (length gap) quiet).
+Proof. exact compressor_release_through_silence. Qed.
+
+(** binary32, bit for bit, what the code does with an exact zero (either sign): log10(+0) = -inf (libm), for EVERY
+    finite threshold the overshoot is +0, and the follower becomes 0 + speed (env - 0) with the release coefficient
+    whenever it is above 0. *)
+Theorem compressor_exact_zero_b32 :
+  forall (lg pw : IEEE.f32 -> IEEE.f32) (thr ratio sa sr env z : IEEE.f32),
+    (z = BinarySingleNaN.B754_zero false \/ z = BinarySingleNaN.B754_zero true) ->
+    lg (BinarySingleNaN.B754_zero false) = BinarySingleNaN.B754_infinity true ->
+    BinarySingleNaN.is_finite thr = true ->
+    fst (comp_channel lg pw thr ratio sa sr env z) =
+    IEEE.add32 (IEEE.Z32 0) (IEEE.mul32 (if IEEE.lt32 (IEEE.Z32 0) env then sr else sa) (IEEE.sub32 env (IEEE.Z32 0))).
+Proof. exact compressor_exact_zero_b32. Qed.
+
+(** Filter after ANY history of device rates (segments (rate, frames) with on_change_sample_rate in between, any
+    initial integrator state): the response to a sinusoid at the rate fs now in force is that of a filter that has
+    always run at fs — H the prototype at Omega = tan(pi f/fs)/tan(pi fc/fs), corner at fc HERTZ — plus the
+    zero-input response of that same filter to the state offset the history left, which decays geometrically. *)
+Theorem filter_response_after_rate_change_R :
+  forall (m : fmode) (fc res mix : R) (hist : list (R * list (frame R))) (ic0 : svfst) (fs f : R) (X : frame C) (N : nat),
+    (0 < fs)%R -> (lit_1e4 <= fc / fs < lit_half)%R -> cos (PI * f / fs) <> 0%R ->
+    let mk := filter_at m fc res mix in
+    let g := prewarp fc fs in let k := filter_k res in let z := cis (omega f fs) in
+    let H := H_proto m k (Ci * RtoC (tan (PI * f / fs) / tan (PI * fc / fs)))%C in
+    let probe := map (fun n => reF (cexp X z n)) (seq 0 N) in
+    let d := st_sub (svf_state (fst (run_history mk (SSvf ic0) hist))) (reS (steady g k z X c1)) in
+    let transient := snd (run_frames (estep consts_R (mk fs)) (SSvf d) (repeat fzero N)) in
+    snd (run_history mk (SSvf ic0) (hist ++ [(fs, probe)])) =
+    snd (run_history mk (SSvf ic0) hist) ++
+    map2 fr_add (map (fun n => reF (cscale X (with_mix H mix * Cpow z n)%C)) (seq 0 N)) transient /\
+    (forall n, (n < N)%nat ->
+               (fr_norm2 (nth n transient fzero) <= filter_C g k * svf_rho g k ^ n * st_energy d)%R) /\
+    (0 <= svf_rho g k < 1)%R.
+Proof. exact filter_response_after_rate_change. Qed.
+
+(** Same for the EQ filter: after any history the bell / shelf sits at the requested frequency for the rate in force. *)
+Theorem eq_response_after_rate_change_R :
+  forall (kind : eqkind) (fc q gain : R) (hist : list (R * list (frame R))) (ic0 : svfst) (fs f : R) (X : frame C) (N : nat),
+    (0 < fs)%R -> (lit_1e4 <= fc / fs < lit_half)%R -> cos (PI * f / fs) <> 0%R ->
+    let mk := eq_at kind fc q gain in
+    let A := eq_A gain in let Q := Rmax q lit_minq in
+    let g := eq_g kind (prewarp fc fs) A in let k := eq_k kind A Q in let z := cis (omega f fs) in
+    let H := H_eq_proto kind A Q (Ci * RtoC (tan (PI * f / fs) / tan (PI * fc / fs)))%C in
+    let probe := map (fun n => reF (cexp X z n)) (seq 0 N) in
+    let d := st_sub (svf_state (fst (run_history mk (SSvf ic0) hist))) (reS (steady g k z X c1)) in
+    let transient := snd (run_frames (estep consts_R (mk fs)) (SSvf d) (repeat fzero N)) in
+    snd (run_history mk (SSvf ic0) (hist ++ [(fs, probe)])) =
+    snd (run_history mk (SSvf ic0) hist) ++
+    map2 fr_add (map (fun n => reF (cscale X (H * Cpow z n)%C)) (seq 0 N)) transient /\
+    (forall n, (n < N)%nat ->
+               (fr_norm2 (nth n transient fzero) <=
+                eq_C g k (snd (fst (eq_m kind A Q))) (snd (eq_m kind A Q)) * svf_rho g k ^ n * st_energy d)%R) /\
+    (0 <= svf_rho g k < 1)%R.
+Proof. exact eq_response_after_rate_change. Qed.
+
+(** What a history is, which effect is in force at rate fs, and the constants of the decay bound. *)
+Theorem rate_history_definitions_R :
+  (forall mk s, run_history mk s [] = (s, [])) /\
+  (forall mk s r xs rest,
+      run_history mk s ((r, xs) :: rest) =
+      (let (s1, o1) := run_frames (estep consts_R (mk r)) (change_rate (mk r) s) xs in
+       let (s2, o2) := run_history mk s1 rest in (s2, o1 ++ o2))) /\
+  (forall m fc res mix fs,
+      filter_at m fc res mix fs =
+      (let '(a1, a2, a3, k) := filter_coeffs PI lit_1e4 lit_half lit_1p9 tan fc res (1 / fs) in EFilter m a1 a2 a3 k mix)) /\
+  (forall kind fc q gain fs,
+      eq_at kind fc q gain fs =
+      (let '((a1, a2, a3), (m0, m1, m2)) := eq_coeffs PI lit_1e4 lit_half lit_minq tan (Rpower 10) kind fc q gain (1 / fs) in
+       EEq a1 a2 a3 m0 m1 m2)) /\
+  (forall ic, svf_state (SSvf ic) = ic) /\
+  (forall x : frame R, fr_norm2 x = fst x * fst x + snd x * snd x) /\
+  (forall s : svfst, st_energy s = fr_norm2 (fst s) + fr_norm2 (snd s)) /\
+  (forall g k, svf_rho g k = 1 - g * (2 * k / (2 + k * k)) / (3 + 6 * (g * g) * (k * k + 1))) /\
+  (forall g k, filter_C g k = 3 * (k * k + 1) / (g * (2 * k / (2 + k * k)))) /\
+  (forall g k m1 m2, eq_C g k m1 m2 = 3 / 2 * (m1 * m1 + m2 * m2) / (g * (2 * k / (2 + k * k)))).
+Proof.
+  exact (conj (fun mk s => eq_refl) (conj (fun mk s r xs rest => eq_refl) (conj (fun m fc res mix fs => eq_refl)
+        (conj (fun kind fc q gain fs => eq_refl) (conj (fun ic => eq_refl) (conj (fun x => eq_refl) (conj (fun s => eq_refl)
+        (conj (fun g k => eq_refl) (conj (fun g k => eq_refl) (fun g k m1 m2 => eq_refl)))))))))).
+Qed.
+
+(** The statement has content: the coefficients in force differ from those of any other rate (inside the clamp
+    range), so an instance that kept the coefficients of the previous rate would contradict it. *)
+Theorem filter_coeffs_follow_rate_R :
+  forall (m : fmode) (fc res mix fs1 fs2 : R),
+    0 < fs1 < fs2 -> lit_1e4 <= fc / fs2 -> fc / fs1 < lit_half ->
+    filter_at m fc res mix fs1 <> filter_at m fc res mix fs2.
+Proof. exact filter_coeffs_follow_rate. Qed.
